@@ -878,3 +878,9 @@ class ProblemTable:
             df.to_excel(writer, sheet_name=sheet_name, index=include_index)
 
         return output_path
+
+
+# --- verification hook (add-only; inert unless OPENPINCH_VERIF=1) ---
+from .. import _verif as _verif_hooks
+if _verif_hooks.ON:
+    ProblemTable.insert_temperature_interval = _verif_hooks.wrap_insert(ProblemTable.insert_temperature_interval)
